@@ -19,10 +19,15 @@ def showBody (r : Ret) : String :=
   | none => "none"
   | some i => s!"read=false,closed=false,content=b{i}"
 
+def showRun1 (sfx : String) (r : List Event × Ret) : List (String × String) :=
+  [("calls" ++ sfx, toString (calls r.1)), ("body" ++ sfx, showBody r.2),
+   ("ret" ++ sfx, s!"resp={optNat r.2.resp} err={optNat r.2.err}"),
+   ("trace" ++ sfx, " ".intercalate (r.1.map showEvent))]
+
+/-- the middleware value is a pure function of (n, d, next): every request through the same instance
+    runs the same loop from attempt 0 (the harness sends three requests through one instance) -/
 def showRun (r : List Event × Ret) : List (String × String) :=
-  [("calls", toString (calls r.1)), ("body", showBody r.2),
-   ("ret", s!"resp={optNat r.2.resp} err={optNat r.2.err}"),
-   ("trace", " ".intercalate (r.1.map showEvent))]
+  showRun1 "" r ++ showRun1 "2" r ++ showRun1 "3" r
 
 /-- `(retry <n> (script o0 o1 …))` -/
 def retryCase (id : String) (payload : List Sexp) : List String :=
